@@ -1065,6 +1065,10 @@ class tensor:
             assert False, "n must be a mode of the tensor"
 
         U = get_mttkrp_factors(U, n, self.ndims)
+        # As real numbers: integer, boolean or single precision storage of the
+        # data or the factors must not wrap around or saturate in the products
+        U = [u if i == n else as_float_if_needed(u) for i, u in enumerate(U)]
+        data = as_float_if_needed(self.data)
 
         if n == 0:
             R = U[1].shape[1]
@@ -1084,18 +1088,18 @@ class tensor:
 
         if n == 0:
             Ur = ttb.khatrirao(*U[1 : self.ndims], reverse=True)
-            Y = np.reshape(self.data, (szn, szr), order=self.order)
+            Y = np.reshape(data, (szn, szr), order=self.order)
             return to_memory_order(Y @ Ur, self.order)
         if n == self.ndims - 1:
             Ul = ttb.khatrirao(*U[0 : self.ndims - 1], reverse=True)
-            Y = np.reshape(self.data, (szl, szn), order=self.order)
+            Y = np.reshape(data, (szl, szn), order=self.order)
             return to_memory_order(Y.T @ Ul, self.order)
         else:
             Ul = ttb.khatrirao(*U[n + 1 :], reverse=True)
             Ur = np.reshape(
                 ttb.khatrirao(*U[0:n], reverse=True), (szl, 1, R), order=self.order
             )
-            Y = np.reshape(self.data, (-1, szr), order=self.order)
+            Y = np.reshape(data, (-1, szr), order=self.order)
             Y = Y @ Ul
             Y = np.reshape(Y, (szl, szn, R), order=self.order)
             V = np.zeros((szn, R), order=self.order)
@@ -1138,17 +1142,21 @@ class tensor:
             U[i].shape == (self.shape[i], U[0].shape[1]) for i in range(self.ndims)
         ):
             assert False, "Factor matrices must be of size (shape[i], R)"
+        # As real numbers: integer, boolean or single precision storage of the
+        # data or the factors must not wrap around or saturate in the products
+        U = [as_float_if_needed(u) for u in U]
+        data = as_float_if_needed(self.data)
         split_idx = min_split(self.shape)
-        V = [np.empty_like(self.data, shape=())] * self.ndims
+        V = [np.empty_like(data, shape=())] * self.ndims
         K = ttb.khatrirao(*U[split_idx + 1 :], reverse=True)
-        W = np.reshape(self.data, (-1, K.shape[0]), order=self.order).dot(K)
+        W = np.reshape(data, (-1, K.shape[0]), order=self.order).dot(K)
         for k in range(split_idx):
             # Loop entry invariant: W has modes (mk x ... x ms, C)
             V[k] = mttv_mid(W, U[k + 1 : split_idx + 1])
             W = mttv_left(W, U[k])
         V[split_idx] = W
         K = ttb.khatrirao(*U[0 : split_idx + 1], reverse=True)
-        W = np.reshape(self.data, (K.shape[0], -1), order=self.order).transpose().dot(K)
+        W = np.reshape(data, (K.shape[0], -1), order=self.order).transpose().dot(K)
         for k in range(split_idx + 1, self.ndims - 1):
             # Loop invariant: W has modes (mk x .. x md, C)
             V[k] = mttv_mid(W, U[k + 1 :])
